@@ -22,6 +22,16 @@
 (*                  servePromWriteBase, serveOTLP, fence handlers),        *)
 (*                  handler.go:checkAuthorization (prom / log queries),    *)
 (*                  handler.go:checkAuth / serveSysCtrl (admin only)       *)
+(*   result cache : handler_prom.go:servePromBaseQuery -> results_cache.go *)
+(*                  ResultsCache.Do / handleHit / handleMiss (range        *)
+(*                  queries; key = metric store, database, retention       *)
+(*                  policy, query text, step, time bucket - NOT the user)  *)
+(*   side ports   : the HTTP ports of the meta and the store role:         *)
+(*                  app/ts-meta/meta/handler.go:ServeHTTP / WrapHandler,   *)
+(*                  app/ts-store/run/handler.go:ServeHTTP / WrapHandler -> *)
+(*                  lib/httpserver/handler.go:Authenticate (the wrapper of *)
+(*                  these ports: ParseCredentials, user name and password  *)
+(*                  only; a Bearer token is "unsupported authentication")  *)
 (*   admin actions: coordinator/statement_executor.go:executeGrant /       *)
 (*                  Revoke / CreateUser / DropUser / SetPasswordUser ->    *)
 (*                  meta/data.go:SetPrivilege, CreateUser, DropUser,       *)
@@ -68,14 +78,16 @@ VARIABLES users,    \* [Users -> [ex: BOOLEAN, pwv: 1..3, priv: [Dbs -> Levels]]
           created,  \* number of databases created through requests (fresh names; nothing targets them later)
           order,    \* the user table of the SQL node after the administrator: live ordinary users in creation order
                     \* (meta/data.go: Users is a slice; CreateUser appends, DropUser closes the gap in place)
+          cache,    \* the response cache of the SQL front end: the databases a cached answer of the cacheable read exists
+                    \* for.  The key is the REQUEST (database, query text, step ..), not the requester.
           inflight, \* requests that are authenticated but not yet authorised (at most MaxInflight; <<>> in most configs)
           last,     \* the last step: what was asked, what the mechanism did, what the requester was entitled to
           hist      \* exported behaviour
 
-vars == <<users, dbs, rows, rps, created, order, inflight, last, hist>>
+vars == <<users, dbs, rows, rps, created, cache, order, inflight, last, hist>>
 \* (the number of steps is part of the view: the exhaustive runs are bounded by Depth, and a state reached again by a
 \* shorter path must be expanded again)
-view == <<users, dbs, rows, rps, created, order, inflight, last, Len(hist)>>
+view == <<users, dbs, rows, rps, created, cache, order, inflight, last, Len(hist)>>
 
 Root   == "admin"                      \* the administrator
 Ghost  == "ghost"                      \* a name no user ever had
@@ -92,7 +104,7 @@ RevokeLevel(old, p) ==
     [] p = "read"  -> (CASE old = "all" -> "write" [] old = "read"  -> "none" [] OTHER -> old)
     [] p = "write" -> (CASE old = "all" -> "read"  [] old = "write" -> "none" [] OTHER -> old)
 
-State == [users |-> users, dbs |-> dbs, rows |-> rows, rps |-> rps, created |-> created]
+State == [users |-> users, dbs |-> dbs, rows |-> rows, rps |-> rps, created |-> created, cache |-> cache]
 
 -----------------------------------------------------------------------------
 \* Requests
@@ -116,11 +128,19 @@ AnonClasses  == {"ping", "preflight"}
 \* needs WRITE on the target database
 WriteClasses == {"write", "fence", "lk_write"}
 \* needs READ on the target database
-ReadClasses  == {"read", "lk_query", "lk_consume", "lk_show", "lk_noop"}
+\*   cread = the cacheable read (Prometheus range / instant query over a time range old enough to be cached)
+ReadClasses  == {"read", "cread", "lk_query", "lk_consume", "lk_show", "lk_noop"}
 \* needs a valid user, nothing else (server statistics); lk_list additionally filters what it shows
 AuthnClasses == {"metrics", "expvar", "lk_list"}
 \* administrator only (catalogue changes, control of the server, internals)
-RootClasses  == {"createdb", "control", "failpoint", "pprof", "debugquery", "runtimecfg", "lk_mgmt"}
+\*   the side ports (operations ports of the meta and the store role) show and control node internals:
+\*   m_internals = GET /getdata, /debug, /analysisCache of the meta port; m_control = its POST routes (takeover, balance,
+\*   movePt, snapshots, recovery ..); m_stats / s_stats = /debug/vars of the meta / store port
+RootClasses  == {"createdb", "control", "failpoint", "pprof", "debugquery", "runtimecfg", "lk_mgmt",
+                 "m_internals", "m_control", "m_stats", "s_stats"}
+\* server roles: every route class is served by the HTTP port of one role
+SideClasses  == {"m_internals", "m_control", "m_stats", "s_stats"}
+PortOf(rc)   == IF rc \in {"m_internals", "m_control", "m_stats"} THEN "meta" ELSE IF rc = "s_stats" THEN "store" ELSE "sql"
 \* registered but switched off: refuses everybody
 OffClasses   == {"flux"}
 AllClasses   == AnonClasses \cup WriteClasses \cup ReadClasses \cup AuthnClasses \cup RootClasses \cup OffClasses \cup {"query"}
@@ -206,10 +226,14 @@ Wrapped(dv, rc) ==
 \* handler.go:ParseCredentials + authenticate: the user the request runs as.
 \*   "REJECT" = 401; "NIL" = the handler runs with user == nil (only reachable through a deviation here, because an
 \*   administrator always exists)
+\*   lib/httpserver/handler.go:Authenticate (the wrapper of the side ports) knows user name + password only:
+\*   a Bearer token is answered 401 "unsupported authentication" whatever it says.  "CONTINUE" = the wrapper has
+\*   written the 401 and runs the handler all the same (deviation reject_then_continue).
 Authenticate(dv, S, r) ==
   LET c == r.cred IN
   CASE c.k = "none"      -> "REJECT"                       \* unable to parse authentication credentials
-    [] c.k = "malformed" -> "REJECT"
+    [] c.k = "malformed" /\ ~(r.rc \in SideClasses /\ r.tr = "bearer") -> "REJECT"
+    [] r.rc \in SideClasses /\ r.tr = "bearer" -> IF "reject_then_continue" \in dv THEN "CONTINUE" ELSE "REJECT"
     [] OTHER ->
        LET live == c.u = Root \/ (c.u \in Users /\ S.users[c.u].ex)
            pwok == \/ c.pw = "cur"
@@ -241,6 +265,7 @@ Holds(dv, S, u, n) ==
 HandlerNeeds(dv, r) ==
   CASE r.rc = "createdb" /\ "noauthz_createdb" \in dv -> {<<"authn", "">>}
     [] r.rc \in {"lk_mgmt", "lk_show", "lk_write", "lk_consume", "lk_noop"} /\ "noauthz_logkeeper" \in dv -> {<<"authn", "">>}
+    [] r.rc \in SideClasses /\ "noauthz_sideport" \in dv -> {<<"authn", "">>}     \* the wrapper authenticates, nobody authorises
     [] r.rc = "query" /\ "explicit_db_ignored" \in dv ->
          {<<"authn", "">>} \cup UNION {StmtNeeds(k, [r EXCEPT !.on = ""]) : k \in StmtSet(r)}
     [] OTHER -> Needs(r)
@@ -270,23 +295,25 @@ StmtDisc(dv, S, u, k, r) ==
 RouteEffect(S, r) ==
   CASE r.rc \in {"write", "lk_write"} -> IF r.db \in S.dbs THEN [k |-> "row", d |-> r.db] ELSE NoEff
     [] r.rc = "createdb" -> [k |-> "db_add", d |-> ""]
-    [] r.rc \in {"control", "failpoint"} -> [k |-> "ctl", d |-> ""]
+    [] r.rc \in {"control", "failpoint", "m_control"} -> [k |-> "ctl", d |-> ""]
     [] r.rc = "lk_mgmt"  -> [k |-> "lk_obj", d |-> r.db]
     [] OTHER -> NoEff
 
 RouteDisc(dv, S, u, r) ==
   CASE r.rc \in {"read", "lk_query", "lk_consume"} -> IF r.db \in S.dbs THEN {<<"rows", r.db>>} ELSE {}
+    [] r.rc = "cread"     -> IF r.db \in S.dbs \/ r.db \in S.cache THEN {<<"rows", r.db>>} ELSE {}   \* (a cached answer outlives its database)
     [] r.rc = "lk_show"   -> IF r.db \in S.dbs THEN {<<"cat", r.db>>} ELSE {}
     [] r.rc = "lk_list"   -> {<<"name", d>> : d \in IF "noauthz_logkeeper" \in dv \/ "listing_unfiltered" \in dv THEN S.dbs ELSE MaySee(S, u)}
-    [] r.rc \in {"metrics", "expvar"} -> {<<"stats", "">>}
-    [] r.rc \in {"pprof", "debugquery", "runtimecfg"} -> {<<"internals", "">>}
+    [] r.rc \in {"metrics", "expvar", "m_stats", "s_stats"} -> {<<"stats", "">>}
+    [] r.rc \in {"pprof", "debugquery", "runtimecfg", "m_internals"} -> {<<"internals", "">>}
     [] OTHER -> {}
 
 \* the outcome of a request in state S under the deviations dv:
 \*   st    "ok" | "unauthenticated" (401) | "forbidden" (403)
 \*   effs  sequence of effects applied, in order
 \*   disc  set of disclosed tokens
-Refuse(st) == [st |-> st, effs |-> <<>>, disc |-> {}]
+\*   fill  the cache keys (databases) the request leaves an answer for in the response cache
+Refuse(st) == [st |-> st, effs |-> <<>>, disc |-> {}, fill |-> {}]
 EffSeq(e) == IF e = NoEff THEN <<>> ELSE <<e>>
 \* the part of a request after authentication: the handler runs as user u
 Decide(dv, S, r, u) ==
@@ -302,19 +329,30 @@ Decide(dv, S, r, u) ==
            effseq == [i \in 1..Len(r.stmts) |-> IF i \in run THEN StmtEffect(S, r.stmts[i], r) ELSE NoEff]
        IN [st |-> IF run = 1..Len(r.stmts) THEN "ok" ELSE "forbidden",
            effs |-> SelectSeq(effseq, LAMBDA e : e # NoEff),
-           disc |-> UNION {StmtDisc(dv, S, u, r.stmts[i], r) : i \in run}]
+           disc |-> UNION {StmtDisc(dv, S, u, r.stmts[i], r) : i \in run}, fill |-> {}]
+  ELSE IF r.rc = "cread" /\ r.db \in S.cache /\ "cache_hit_skips_authz" \in dv
+       \* results_cache.go:handleHit - a full hit is answered from the cache; checkAuthorization sits in execQuery, which
+       \* only a (partial) miss reaches
+       THEN [st |-> "ok", effs |-> <<>>, disc |-> RouteDisc(dv, S, u, r), fill |-> {}]
   ELSE IF \A n \in HandlerNeeds(dv, r) : Holds(dv, S, u, n)
-       THEN [st |-> "ok", effs |-> EffSeq(RouteEffect(S, r)), disc |-> RouteDisc(dv, S, u, r)]
+       \* design: the authorisation decision is taken for EVERY request, before a cached answer may be returned; an
+       \* authorised miss leaves its answer in the cache
+       THEN [st |-> "ok", effs |-> EffSeq(RouteEffect(S, r)), disc |-> RouteDisc(dv, S, u, r),
+             fill |-> IF r.rc = "cread" /\ r.db \in S.dbs THEN {r.db} ELSE {}]
        ELSE Refuse("forbidden")
 
 Outcome(dv, S, r) ==
-  IF r.rc \in AnonClasses THEN [st |-> "ok", effs |-> <<>>, disc |-> {}]
+  IF r.rc \in AnonClasses THEN [st |-> "ok", effs |-> <<>>, disc |-> {}, fill |-> {}]
   ELSE IF ~Wrapped(dv, r.rc)
   THEN \* the handler has no user parameter: it cannot check anything
-       [st |-> "ok", effs |-> EffSeq(RouteEffect(S, r)), disc |-> RouteDisc(dv, S, Root, r)]
+       [st |-> "ok", effs |-> EffSeq(RouteEffect(S, r)), disc |-> RouteDisc(dv, S, Root, r), fill |-> {}]
   ELSE
   LET u == Authenticate(dv, S, r) IN
-  IF u = "REJECT" THEN Refuse("unauthenticated") ELSE Decide(dv, S, r, u)
+  IF u = "REJECT" THEN Refuse("unauthenticated")
+  ELSE IF u = "CONTINUE"
+  THEN \* the wrapper of the side ports has answered 401 - and calls the handler, which knows no user
+       [st |-> "unauthenticated", effs |-> EffSeq(RouteEffect(S, r)), disc |-> RouteDisc(dv, S, Root, r), fill |-> {}]
+  ELSE Decide(dv, S, r, u)
 
 \* applying effects to the state
 Apply1(S, e) ==
@@ -329,6 +367,7 @@ RECURSIVE ApplyAll(_, _)
 ApplyAll(S, es) == IF es = <<>> THEN S ELSE ApplyAll(Apply1(S, Head(es)), Tail(es))
 
 Acted(o) == o.effs # <<>> \/ o.disc # {}
+Filled(S, o) == [S EXCEPT !.cache = @ \cup o.fill]
 
 \* what a user may do: the mechanism's answer for every (user, database) cell
 May(dv, S) == [u \in Users |-> [d \in Dbs |->
@@ -377,6 +416,7 @@ Init ==
   /\ rows = [d \in Dbs |-> 0]
   /\ rps = [d \in Dbs |-> FALSE]
   /\ created = 0
+  /\ cache = {}
   /\ order = IF Fixture THEN <<"u1", "u2", "u3">> ELSE <<>>
   /\ inflight = <<>>
   /\ last = NoLast
@@ -384,7 +424,7 @@ Init ==
 
 Without(seq, x) == SelectSeq(seq, LAMBDA y : y # x)
 RootStep(a, args, S2) ==
-  /\ users' = S2.users /\ dbs' = S2.dbs /\ rows' = S2.rows /\ rps' = S2.rps /\ created' = S2.created
+  /\ users' = S2.users /\ dbs' = S2.dbs /\ rows' = S2.rows /\ rps' = S2.rps /\ created' = S2.created /\ cache' = S2.cache
   /\ order' = CASE a = "CreateUser" -> Append(order, args.u)
                 [] a = "DropUser"   -> Without(order, args.u)
                 [] OTHER -> order
@@ -440,12 +480,12 @@ CreateDatabase(d) ==
 Request(r) ==
   LET S  == State
       o  == Outcome(Dev, S, r)
-      S2 == ApplyAll(S, o.effs)
+      S2 == Filled(ApplyAll(S, o.effs), o)
       od == Outcome({}, S, r)
       oi == Outcome(ImplDev, S, r)
       Sum(x) == [st |-> x.st, acted |-> Acted(x), effs |-> x.effs, disc |-> x.disc]
   IN
-  /\ users' = S2.users /\ dbs' = S2.dbs /\ rows' = S2.rows /\ rps' = S2.rps /\ created' = S2.created
+  /\ users' = S2.users /\ dbs' = S2.dbs /\ rows' = S2.rows /\ rps' = S2.rps /\ created' = S2.created /\ cache' = S2.cache
   /\ UNCHANGED <<order, inflight>>
   /\ last' = [a |-> "Request", allowed |-> Allowed(S, r), st |-> o.st, acted |-> Acted(o), changed |-> S2 # S,
               leak |-> {t \in o.disc : t[1] = "name" /\ t[2] \notin MaySee(S, Principal(S, r.cred))}]
@@ -453,6 +493,7 @@ Request(r) ==
                            [a |-> "Request", args |-> r,
                             exp |-> Sum(od), imp |-> Sum(oi),
                             why |-> {x \in ImplDev : Outcome({x}, S, r) # od},
+                            hit |-> r.rc = "cread" /\ r.db \in S.cache,
                             allowed |-> Allowed(S, r)])
 
 \* ---- a request in two steps: the wrapper authenticates (Begin), later the handler authorises and runs (Finish);
@@ -469,7 +510,7 @@ Begin(r) ==
      /\ r.rc \notin AnonClasses /\ Wrapped(Dev, r.rc)
      /\ u \in Users                   \* (the administrator's slot is the first and never moves)
      /\ inflight' = Append(inflight, [r |-> r, u |-> u, slot |-> Pos(order, u), rec |-> S.users[u], ok0 |-> Allowed(S, r)])
-     /\ UNCHANGED <<users, dbs, rows, rps, created, order>>
+     /\ UNCHANGED <<users, dbs, rows, rps, created, cache, order>>
      /\ last' = [a |-> "Begin"]
      /\ hist' = Append(hist, IF ~Record THEN [a |-> "Begin"] ELSE [a |-> "Begin", args |-> r, exp |-> [st |-> "pending"]])
 
@@ -481,13 +522,13 @@ Finish ==
       p  == Head(inflight)
       As(dv) == [S EXCEPT !.users[p.u] = SeenRec(dv, S, order, p)]
       o  == Decide(Dev, As(Dev), p.r, p.u)
-      S2 == ApplyAll(S, o.effs)
+      S2 == Filled(ApplyAll(S, o.effs), o)
       od == Decide({}, As({}), p.r, p.u)
       oi == Decide(ImplDev, As(ImplDev), p.r, p.u)
       Sum(x) == [st |-> x.st, acted |-> Acted(x), effs |-> x.effs, disc |-> x.disc]
       okNow == Allowed(S, p.r)
   IN /\ inflight # <<>>
-     /\ users' = S2.users /\ dbs' = S2.dbs /\ rows' = S2.rows /\ rps' = S2.rps /\ created' = S2.created
+     /\ users' = S2.users /\ dbs' = S2.dbs /\ rows' = S2.rows /\ rps' = S2.rps /\ created' = S2.created /\ cache' = S2.cache
      /\ inflight' = Tail(inflight)
      /\ UNCHANGED order
      \* allowed = the requester held what the request needs at some point between authentication and execution
@@ -539,6 +580,7 @@ TypeOK ==
   /\ rows \in [Dbs -> 0..MaxRows]
   /\ rps \in [Dbs -> BOOLEAN]
   /\ created \in 0..MaxCreated
+  /\ cache \subseteq Dbs
   /\ {order[i] : i \in 1..Len(order)} = {u \in Users : users[u].ex} /\ Len(order) = Cardinality({u \in Users : users[u].ex})
   /\ Len(inflight) <= MaxInflight
 
@@ -558,7 +600,7 @@ ListingsFiltered ==
 NoDanglingPrivilege ==
   \A u \in Users, d \in Dbs : (~users[u].ex \/ d \notin dbs) => users[u].priv[d] = "none"
 
-StateP == [users |-> users', dbs |-> dbs', rows |-> rows', rps |-> rps', created |-> created']
+StateP == [users |-> users', dbs |-> dbs', rows |-> rows', rps |-> rps', created |-> created', cache |-> cache']
 
 \* C19, second sentence: GRANT / REVOKE change what the mechanism lets that user do on exactly that database,
 \* and change it to what was granted
